@@ -24,7 +24,7 @@ Traces == Batch.traces
 VARIABLES t, i
 
 ScnOf(j, D) == [hosts |-> j.hosts, conts |-> j.conts, inst |-> j.inst, paths |-> j.paths,
-                data |-> j.data, kidx |-> SetOf(j.kidx), defects |-> D]
+                data |-> j.data, kidx |-> SetOf(j.kidx), allpaths |-> j.allpaths, defects |-> D]
 
 CanonPost(S, j) ==
   [nodes  |-> [p \in DOMAIN j.nodes |-> [d |-> j.nodes[p].d, o |-> j.nodes[p].o]],
@@ -117,6 +117,10 @@ Resync(S, pre, line, post) ==
               [] line.ev \in {"begin", "end", "expire", "crash", "restart"} -> FALSE
               [] OTHER -> pre.fs[h] IN
   [pre EXCEPT !.nodes = post.nodes, !.reg = post.reg, !.queue = post.queue,
+              !.rseq = [x \in HostSet(S) |->
+                          SelectSeq(pre.rseq[x], LAMBDA q : q \in DOMAIN post.reg[x])
+                          \o SelectSeq(S.allpaths, LAMBDA q : q \in DOMAIN post.reg[x]
+                                                            /\ q \notin Range(pre.rseq[x]))],
               !.active = post.active, !.sess = post.sess, !.linger = post.linger,
               !.claimed = [x \in HostSet(S) |->
                              [q \in DOMAIN pre.claimed[x] \cap DOMAIN post.nodes |-> pre.claimed[x][q]]],
